@@ -12,12 +12,12 @@ ID = 'C12'
 LEVEL = 'exploration'
 RULE = ('per case 2-6 bundles for a local endpoint, each either clean (no security / valid BIB / valid BCB / valid BIB+BCB) or carrying one '
         'malformation built by ref/bpsec_cose.py: wrong key, unknown kid, altered target (also with the original content attached to the COSE message), unknown context id, target number absent, duplicate '
-        'parameter ids, duplicate result ids, result count 0 or 2, undecodable COSE message, security-block data that is not a CBOR sequence, '
+        'parameter ids and duplicate result ids (adjacent, or with another id between the two), result count 0 or 2, undecodable COSE message, security-block data that is not a CBOR sequence, '
         'two BIBs of which only the last is bad, good BIB + bad BCB and vice versa, random bit flips in the security block with CRC fix-up; '
         'acceptance on/off, key store contents and deletion-report request drawn per case. A clean bundle always follows a bad one. '
         'Non-trivial: at least one malformed bundle; distinct = digest of the case descriptors.')
 COMPONENTS = bc.COMPONENTS
-PROBES = tuple('bad.' + name for name in ('wrong-key', 'unknown-kid', 'altered-target', 'altered-target-attached-original', 'targets-not-array', 'unknown-context', 'target-absent', 'dup-param', 'dup-result', 'zero-results',
+PROBES = tuple('bad.' + name for name in ('wrong-key', 'unknown-kid', 'altered-target', 'altered-target-attached-original', 'targets-not-array', 'unknown-context', 'target-absent', 'dup-param', 'dup-param-apart', 'dup-result', 'dup-result-apart', 'zero-results',
                                            'two-results', 'cose-garbage', 'asb-not-cbor', 'last-of-two-bibs', 'good-bib-bad-bcb', 'bad-bib-good-bcb', 'bitflip')) + (
     'good.none', 'good.bib', 'good.bcb', 'good.bib+bcb', 'accept.on', 'accept.off', 'probe.recv_exception', 'rpt.security_reason', 'dest.admin_endpoint')
 ASSUMPTIONS = ['an exception leaving recv_bundle() is a probe; it counts only through its consequence (delivery)',
@@ -25,7 +25,7 @@ ASSUMPTIONS = ['an exception leaving recv_bundle() is a probe; it counts only th
 CHUNK = 25
 BUDGET = {'quick': 30, 'thorough': 400}
 
-BAD = ('wrong-key', 'unknown-kid', 'altered-target', 'altered-target-attached-original', 'targets-not-array', 'unknown-context', 'target-absent', 'dup-param', 'dup-result', 'zero-results', 'two-results',
+BAD = ('wrong-key', 'unknown-kid', 'altered-target', 'altered-target-attached-original', 'targets-not-array', 'unknown-context', 'target-absent', 'dup-param', 'dup-param-apart', 'dup-result', 'dup-result-apart', 'zero-results', 'two-results',
        'cose-garbage', 'asb-not-cbor', 'last-of-two-bibs', 'good-bib-bad-bcb', 'bad-bib-good-bcb', 'bitflip')
 GOOD = ('none', 'bib', 'bcb', 'bib+bcb')
 
@@ -125,6 +125,11 @@ def build(item, index):
         sec = _asb_edit(sec, lambda new: new.update(targets=[9]))
     elif what == 'dup-param':
         sec = _asb_edit(sec, lambda new: new.update(params=new['params'] + [(5, {0: 1, -1: 1})]))
+    elif what == 'dup-param-apart':
+        # the same parameter id twice with another parameter (an empty additional-unprotected map) between the two
+        sec = _asb_edit(sec, lambda new: new.update(params=new['params'] + [(4, b'\xa0'), (5, {0: 1, -1: 1})]))
+    elif what == 'dup-result-apart':
+        sec = _asb_edit(sec, lambda new: new.update(results=[new['results'][0] + [(99, b'\x01')] + new['results'][0]]))
     elif what == 'dup-result':
         sec = _asb_edit(sec, lambda new: new.update(results=[new['results'][0] + new['results'][0]]))
     elif what == 'zero-results':
